@@ -10,7 +10,7 @@
 From Coq Require Import String ZArith QArith Bool Arith List Permutation Sorted.
 From GT Require Import Base.UTree Spec.Obs Model.Reroot Spec.Unrooted
      Proofs.RerootBase Model.Matrix Proofs.MatrixWalk Proofs.MatrixCells Proofs.MatrixMain
-     Spec.Cut Proofs.CutBase Proofs.CutSem Proofs.CutSpec Proofs.CutPaths Judge.C14 Proofs.MatrixOracle.
+     Spec.Cut Proofs.CutBase Proofs.CutSem Proofs.CutSpec Proofs.CutPaths Judge.C14 Proofs.MatrixOracle Proofs.CutUF Proofs.CutReps Proofs.CutUnion.
 Import ListNotations.
 Local Close Scope Q_scope.
 
@@ -193,3 +193,35 @@ Theorem C14_oracle_accepts_model :
   forall m t, good t -> matrix_oracle m t (fst (to_matrix m t)) (snd (to_matrix m t)) = None.
 Proof. exact matrix_oracle_accepts. Qed.
 Print Assumptions C14_oracle_accepts_model.
+
+(** * the oracle's specification, the path form and the model are one statement *)
+(** the naive union-find of Spec/Cut.v computes connectivity: after the fold, two elements are
+    in a common class iff they are related by the smallest equivalence containing the joined
+    pairs *)
+Theorem C14_union_find_is_connectivity :
+  forall (A : Type) (p : A -> bool) n (ge : list (nat * nat * A)),
+    (forall u v a, In (u, v, a) ge -> u < n /\ v < n) ->
+    forall i j, i < n -> j < n ->
+      (sc (fold_left (fun cl x => if p (snd x) then union (fst (fst x)) (snd (fst x)) cl else cl) ge
+                     (map (fun i => [i]) (seq 0 n))) i j
+       <-> conn (short_pairs p ge) i j).
+Proof. exact (@uf_classes). Qed.
+Print Assumptions C14_union_find_is_connectivity.
+
+(** two tip names are in a common group of [cut_groups] (the union-find closure the run-time
+    oracle computes) iff they are in a common bag of the model's [cut] *)
+Theorem C14_cut_groups_iff_same_bag :
+  forall maxlen t, wf t = true ->
+    forall a b,
+      (exists g, In g (cut_groups maxlen t) /\ In a g /\ In b g) <->
+      (exists bag, In bag (cut maxlen t) /\ In a bag /\ In b bag).
+Proof. exact cut_groups_same_bag. Qed.
+Print Assumptions C14_cut_groups_iff_same_bag.
+
+(** ... iff every branch on the path between them is shorter than the threshold *)
+Theorem C14_cut_groups_iff_joined_by_short_branches :
+  forall maxlen t, wf t = true -> 2 <= degree t -> NoDup (leaves t) ->
+    forall a b d, In (a, b, d) (pairdists (w_long maxlen) t) ->
+      ((d == 0)%Q <-> exists g, In g (cut_groups maxlen t) /\ In a g /\ In b g).
+Proof. exact cut_groups_classes. Qed.
+Print Assumptions C14_cut_groups_iff_joined_by_short_branches.
